@@ -1,6 +1,7 @@
 import Driver.JsonConv
 import BSEModel.Compose
 import BSEModel.Api
+import BSEModel.Index
 open Lean BSE BSE.Drv BSE.Compose
 
 namespace BSE.Drv.Store
@@ -12,7 +13,32 @@ def decodeFiles (j : Json) : Except String (List (String × J)) := do
   | .obj kvs => pure kvs
   | _ => throw "files must be an object"
 
+def decodeEntry (j : Json) : Except String BSE.Index.Entry := do
+  let vs ← (← getArr j "versions").mapM fun v => do
+    match v with
+    | .arr #[.str k, els] => do pure (k, ← strList els)
+    | _ => throw "version pair"
+  pure { key := ← getStr j "key", display := ← getStr j "display", family := ← getStr j "family", role := ← getStr j "role", versions := vs }
+
+def optStr (j : Json) (k : String) : Option String :=
+  match j.getObjVal? k with
+  | .ok (Json.str s) => some s
+  | _ => none
+
 def handlers : List (String × Handler) := [
+  ("create_metadata", fun j => do
+    let files ← decodeFiles j
+    let paths ← getStrList j "paths"
+    match BSE.Index.createMetadata (mkDir files) paths with
+    | .ok d => pure (obj [("ok", ofJ (.obj d))])
+    | .error e => pure (obj [("raise", Json.str e.name)])),
+  ("filter", fun j => do
+    let md ← (← getArr j "entries").mapM decodeEntry
+    let els : Option (List String) ← match j.getObjVal? "elements" with
+      | .ok (Json.arr a) => do pure (some (← a.toList.mapM (·.getStr?)))
+      | _ => pure none
+    let r := BSE.Index.filterEntries md (optStr j "substr") (optStr j "family") (optStr j "role") els
+    pure (obj [("ok", Json.arr (r.map fun e => Json.arr #[.str e.key, toJson (e.versions.map (·.1))]).toArray)])),
   ("select", fun j => do
     let keys ← getStrList j "keys"
     let sel ← getStrList j "sel"
